@@ -49,7 +49,7 @@ def always_jumps(s):
       return body   # the model reaches handlers only from explicit raise statements
     return body and all(block_jumps(h.body) for h in s.handlers)
   if isinstance(s, (ast.While, ast.For)):
-    has_break = any(isinstance(n, ast.Break) for n in _walk_same_loop(s))
+    has_break = live_break(s.body)
     # `while True:` without a break never falls through
     if isinstance(s, ast.While) and isinstance(s.test, ast.Constant) and s.test.value is True:
       return not has_break
@@ -70,9 +70,40 @@ def has_raise(stmts):
       sub = getattr(st, field, None)
       if isinstance(sub, list) and has_raise(sub):
         return True
-    for h in getattr(st, 'handlers', []) or []:
-      if has_raise(h.body):
+    if isinstance(st, ast.Try) and has_raise(st.body):
+      # handlers are reachable only from an explicit raise in the body
+      for h in st.handlers:
+        if has_raise(h.body):
+          return True
+    if always_jumps(st):
+      break
+  return False
+
+
+def live_break(stmts):
+  """Is there a reachable break that belongs to the loop owning `stmts`?"""
+  for st in stmts:
+    if isinstance(st, ast.Break):
+      return True
+    if isinstance(st, (ast.FunctionDef, ast.ClassDef)):
+      continue
+    if isinstance(st, (ast.For, ast.While)):
+      if live_break(st.orelse):      # a break in a nested loop's else clause is ours
         return True
+    elif isinstance(st, ast.Try):
+      if st.finalbody and block_jumps(st.finalbody):
+        if live_break(st.finalbody):
+          return True
+      else:
+        if live_break(st.body) or live_break(st.orelse) or live_break(st.finalbody):
+          return True
+        if has_raise(st.body) and any(live_break(h.body) for h in st.handlers):
+          return True
+    else:
+      for field in ('body', 'orelse'):
+        sub = getattr(st, field, None)
+        if isinstance(sub, list) and live_break(sub):
+          return True
     if always_jumps(st):
       break
   return False
@@ -82,6 +113,10 @@ def _walk_same_loop(loop):
   stack = list(loop.body)
   while stack:
     n = stack.pop()
+    if isinstance(n, ast.Try) and n.finalbody and block_jumps(n.finalbody):
+      # jumps out of this try are overridden by the jump in its finally block
+      stack.extend(n.finalbody)
+      continue
     yield n
     if isinstance(n, (ast.For, ast.While, ast.FunctionDef, ast.Lambda, ast.ClassDef)):
       if isinstance(n, (ast.For, ast.While)):
@@ -259,8 +294,14 @@ def check_trace(sub, fn, graph, trace, how):
       # node inside an except clause); if there is none the exception left the function.
       j = i
       found = None
+      swallowed = False
       while j < len(trace):
         if in_propagation_finally(sub, trace[j], cur.ast_node._vf_k):
+          if isinstance(sub.nodes[trace[j]], (ast.Return, ast.Break, ast.Continue)):
+            # a jump inside the finally block discards the exception: normal flow resumes at that jump
+            swallowed = True
+            found = j
+            break
           j += 1
           continue
         found = j
@@ -270,6 +311,10 @@ def check_trace(sub, fn, graph, trace, how):
           return None, edges     # the exception left the function
         return 'explicit raise `%s` was followed by a normal return without any handler statement' % (cur,), edges
       cand = by_k.get(trace[found])
+      if swallowed and cand is not None:
+        cur = cand
+        i = found + 1
+        continue
       if cand is None or not reach_via_unobservable(cur, cand):
         return 'exception raised by `%s` was caught and execution continued at `%s`, but the graph has no edge from the raise to it' % (
             cur, cand if cand is not None else ast.unparse(sub.nodes[trace[found]])[:50]), edges
